@@ -521,4 +521,30 @@ def c14_scan_std(tier, seed):
 E('C14', c14_scan_abacus)
 E('C14', c14_scan_std)
 
+# ----------------------------------------------------------------------------- C20
+prop('C20', 'other',
+     'Proved for every value of all 8 integral types: angle_to_radians(d) is NaN outside [0,360] and within 2 ulp of '
+     'd*pi/180 inside (integer inequality against pi*65536 = 205887.416172, CBMC/kissat); for every integer |d| <= 360 the '
+     'radian argument d*phi/180 computed in any integral carrier type or in float equals the one computed from '
+     'fixed_t(d) (INT lemmas / CBMC for float), and sin_angle/cos_angle/tan_angle are exactly sin/cos/tan of that '
+     'argument (CBMC lemmas, sin/cos/tan under the determinism abstraction) -- together: type independence. The widened '
+     'C09/C10 accuracy bounds at the 721 angles need the real functions: exhaustive native stand-in.',
+     technique='CBMC contracts + kissat (angle_to_radians), INT/CBMC lemmas (type independence); exhaustive native stand-in for accuracy',
+     assumptions=['glibc sinl/cosl/tanl as the oracle of the stand-in'])
+UF_TRIG = [(SIN, 'UF', None), (COS, 'UF', None), (TAN, 'UF', None), ('_ZN9fixedmath6detail24fixed_division_by_scalarIivEENS_7fixed_tES2_T_', 'UF', None)]
+for t, ct in ITYPES:
+    U('C20', 'c20.a2r.' + ct, '_ZN9fixedmath16angle_to_radiansI%svEENS_7fixed_tET_' % t, 'pre_i2f_' + t, 'post_a2r_' + t, cxx='fixedmath::angle_to_radians($1)', backends=MULBE, timeout=600)
+    U('C20', 'c20.same_arg.' + ct, 'lem_c20_same_arg_' + t, 'pre_c20_' + t, None, lemma=True, cxx='lem_c20_same_arg_%s($1)' % t, replace=[(I2F(t), 'pre_i2f_' + t, 'post_i2f_' + t)], **INTQ)
+    U('C20', 'c20.forward.' + ct, 'lem_c20_sin_is_sin_of_arg_' + t, 'pre_c20_' + t, None, lemma=True, cxx='lem_c20_sin_is_sin_of_arg_%s($1)' % t, replace=UF_TRIG + [('_ZN9fixedmath6detail21fixed_multiply_scalarI%svEENS_7fixed_tES2_T_' % t, 'UF', None)], backends=MULBE, timeout=300)
+U('C20', 'c20.same_arg.float', 'lem_c20_same_arg_f', 'pre_c20_f', None, lemma=True, cxx='lem_c20_same_arg_f($1)', replace=[UF_MULI], backends=MULBE, timeout=600)
+U('C20', 'c20.forward.float', 'lem_c20_sin_is_sin_of_arg_f', 'pre_c20_f', None, lemma=True, cxx='lem_c20_sin_is_sin_of_arg_f($1)', replace=UF_TRIG + [UF_MULI], backends=MULBE, timeout=300)
+U('C20', 'c20.forward.fixed_t', 'lem_c20_sin_is_sin_of_arg_x', 'pre_c20_x', None, lemma=True, cxx='lem_c20_sin_is_sin_of_arg_x($1)', replace=UF_TRIG + [UF_MULI], backends=MULBE, timeout=300)
+
+
+def c20_scan(tier, seed):
+    return _native.run_native('c20_angle_scan', 'c20_angle_scan.cc', 'abacus', [], label='exhaustive stand-in (not proved): accuracy clauses of C20')
+
+
+E('C20', c20_scan)
+
 NOT_APPLICABLE = {}
